@@ -83,3 +83,36 @@ PLAN["C06"] = {
                  {"test": "TestC06_Positions", "rapid": False, "timeout": 300},
                  {"test": "TestC06_Rapid", "checks": 60000, "shards": 8, "timeout": 1800}],
 }
+
+PLAN["C05"] = {
+    "level": "exploration",
+    "rule": ("rapid-drawn field elements (0,1,2,r-1,r-2,(r-1)/2,2^k,2^k-1, small, by-byte-length, uniform) for Poseidon1, Poseidon2, an argument-swapped Poseidon2 and a "
+             "7-call chain that feeds outputs forward and re-uses inputs, each run in the test engine (e1) and on the compiled BN254 R1CS with an independent "
+             "constraint evaluator (e2); presented output = iden3 reference (must be accepted) or reference+delta at a drawn position (must be rejected). "
+             "Non-trivial = anything but the repository's three literal vectors; distinct = SHA-1 of the canonical case."),
+    "assumptions": A_COMMON,
+    "technique": "differential property testing against iden3 Poseidon (reference constants), positive and negative outputs",
+    "level_text": "Exploration: tens of thousands of generated inputs per run compared with an independent implementation; both acceptance of the reference output and rejection of perturbed outputs are checked.",
+    "level_note": "iden3's Poseidon (self-checked against two published circomlib vectors at start-up) is the trusted definition of the reference hash",
+    "quick": [{"test": "TestC05_Poseidon", "checks": 20000, "timeout": 600}],
+    "thorough": [{"test": "TestC05_Poseidon", "checks": 50000, "shards": 16, "timeout": 1500}],
+}
+
+PLAN["C04"] = {
+    "level": "exploration",
+    "rule": ("(Lengths) enumeration of message lengths x both domain bytes in the test engine: quick = rate-boundary lengths {0,1,2,31..33,55,56,134..138,270..274,406..410,543..545}, "
+             "the production lengths 68+32b and 64+4b for b=1..16, 100; thorough = EVERY length 0..552 (every residue mod 136 in 1..5 blocks) and 1000; per (length, domain) "
+             "two deterministic contents (byte(i*7+salt) and one of zeros/ones/single-bit/last byte 0x80/0x01/0x06) with the x/crypto digest (must be accepted) and one negative "
+             "(one flipped digest bit, the other domain's digest, or the digest of the message with one flipped bit; must be rejected). (Rapid) drawn lengths 0..600 (thorough 0..1200), "
+             "boundary and production lengths, random and structured contents, all four output variants, run in the test engine and - for the lengths {0,1,72,132,135,136,137} "
+             "(thorough adds 164,271,272,273,408) - on the compiled BN254 R1CS with an independent constraint evaluator. Bits LSB-first per byte on both sides. "
+             "Non-trivial = any negative case, or a positive one with length > 1 other than the uniform 136-byte block; distinct = SHA-1 of the canonical case."),
+    "assumptions": A_COMMON,
+    "technique": "differential property testing against golang.org/x/crypto/sha3 (positive and negative digests), exhaustive over lengths in the thorough tier",
+    "level_text": "Exploration; thorough tier is exhaustive over message lengths 0..552 for both domains (contents sampled). Compiled-system coverage at 7-12 lengths, other lengths in the test engine.",
+    "level_note": "x/crypto's LegacyKeccak256 and New256 are the trusted standard functions; only byte-aligned messages are in the domain (the property's)",
+    "quick": [{"test": "TestC04_Lengths", "rapid": False, "shards": 4, "timeout": 900},
+              {"test": "TestC04_Rapid", "checks": 150, "shards": 4, "timeout": 900}],
+    "thorough": [{"test": "TestC04_Lengths", "rapid": False, "shards": 16, "timeout": 2400},
+                 {"test": "TestC04_Rapid", "checks": 500, "shards": 16, "timeout": 2400}],
+}
